@@ -6,6 +6,7 @@ import (
 	"fmt"
 	"math/rand"
 	"os"
+	"os/exec"
 	"path/filepath"
 	"regexp"
 	"strconv"
@@ -329,6 +330,46 @@ func c04E2E(r *vlib.Run) {
 	}
 	defer fl.Stop()
 	dir, _ := filepath.EvalSymlinks(r.Dir("c04e2e"))
+	// other sessions on the same server while the follows run: reads that end
+	// early (--max) and reads whose client goes away in the middle - whatever
+	// they leave behind in the server process must not reach a follow
+	if fl != nil {
+		var nb bytes.Buffer
+		for k := 0; k < 60000; k++ {
+			fmt.Fprintf(&nb, "NOISE line %06d of another session's file, never appended to a followed file\n", k)
+		}
+		noise := fl.WriteFile(0, "noise/big.log", nb.Bytes())
+		stopNoise := make(chan struct{})
+		var nwg sync.WaitGroup
+		for w := 0; w < 2; w++ {
+			nwg.Add(1)
+			go func(w int) {
+				defer nwg.Done()
+				for k := 0; ; k++ {
+					select {
+					case <-stopNoise:
+						return
+					default:
+					}
+					if (k+w)%2 == 0 {
+						runFleet(r, fl, "dgrep", []string{"--plain", "--files", noise, "--regex", "line 0000", "--max", "2"}, nil)
+					} else {
+						// a dcat whose client is killed after 150 ms
+						full := append(fl.ClientArgs(), "--logger", "stdout", "--logLevel", "error", "--plain", "--files", noise)
+						c := exec.Command(r.Bin("dcat"), full...)
+						c.Env, c.Dir = append(vlib.BaseEnv(fl.Home), fl.ClientEnv()...), fl.Home
+						if c.Start() == nil {
+							time.Sleep(150 * time.Millisecond)
+							c.Process.Kill()
+							c.Wait()
+						}
+					}
+					r.Count("e2e_other_sessions_on_the_followed_server", 1)
+				}
+			}(w)
+		}
+		defer func() { close(stopNoise); nwg.Wait() }()
+	}
 	seeds := make([]int64, n)
 	for i := range seeds {
 		seeds[i] = rng.Int63()
